@@ -10,6 +10,14 @@ Bounded exhaustive exploration on the real ChoiceSetsGeneration / GenerateModel 
          vector x every answer of the second sampler, paired with every first answer (product when small,
          otherwise diagonal pairing that still meets every answer of both samplers), nested and cross-nested.
  part V  size validation: k_s = 0 and k_s = n_s + 1 must be refused with BiogemeError.
+ part F  (nest forms) the nested model is built from every WAY of handing the same nests to get_nested_logit:
+         NestsForNestedLogit with distinct names / without names / old (mu, [ids]) tuples / every nest the same name /
+         an explicit name colliding with an automatic one, and a plain tuple / list of OneNestForNestedLogit objects
+         without names or with one common name - on 5 nest structures (1-3 nests, also two nests sharing one mu).
+ part H  (histories on the user's frames) before - or after - the context under test, other SamplingContext objects are
+         built on the SAME alternative / individual data frames (same nest names with other alphas, the same structure,
+         a third one, no CNL at all; with or without a generation into the same file): every history of <= 2 earlier
+         operations and <= 1 later one from that alphabet, then the unchanged oracles on the context under test.
 
 Oracles (reference: vf/ref_sampling.py, plain Python):
   per generated row  - chosen first, no duplicates, exactly k_s per stratum (chosen counts), members = what the
@@ -102,10 +110,52 @@ NEST_STRUCTS = {
     'N1': [('mu_a', [0, 2])],                      # the others are alone
     'N2': [('mu_b', [1, 2, 3]), ('mu_a', [4, 5])],  # position 0 alone
 }
+# more nest structures, used by part F only (two nests in any table, three nests two of which share one parameter)
+NEST_STRUCTS_F = {
+    'N3': [('mu_b', [0, 3]), ('mu_a', [1, 2, 4])],
+    'N4': [('mu_a', [0]), ('mu_b', [1, 2]), ('mu_a', [3, 4, 5])],
+}
+# the ways of handing nests to GenerateModel.get_nested_logit (the statement speaks of nests = (parameter, members) only)
+NEST_FORMS = ['auto', 'old', 'tuple', 'list', 'same', 'clash', 'tuple_same']
+SAME_NAME = ['g', '', 'nest_1', 'nest'][_A]
 CNL_STRUCTS = {
     'C0': [('na', 'mu_a', {0: 1.0, 1: 0.4, 2: 0.3, 4: 0.5}), ('nb', 'mu_b', {1: 0.6, 2: 0.7, 3: 1.0, 4: 0.5, 5: 1.0})],
     'C1': [('nb', 'mu_b', {0: 0.5, 1: 1.0}), ('na', 'mu_a', {0: 0.5, 2: 1.0, 5: 1.0})],  # position 3 (and 4) alone
 }
+
+
+# a third set of membership degrees under the same nest names: only ever used by an EARLIER / LATER context (part H)
+CNL_STRUCTS_H = {
+    'C2': [('na', 'mu_a', {0: 0.25, 1: 0.75, 3: 1.0, 4: 0.5}), ('nb', 'mu_b', {0: 0.75, 1: 0.25, 2: 1.0, 4: 0.5, 5: 1.0})],
+}
+# histories: operations on the same data frames before ('pre') / after ('post') the context under test.
+#   X = the other structure (same nest names, other alphas), S = the same structure as the context under test (C0 when it has
+#   none), C2 = the third one, '-' = a context without CNL nests; 'g' appended = that context also generates into the same file
+HISTORIES = {
+    'h0': dict(pre=[], post=[]),
+    'hX': dict(pre=['X'], post=[]),
+    'hS': dict(pre=['S'], post=[]),
+    'hXg': dict(pre=['Xg'], post=[]),
+    'h-g': dict(pre=['-g'], post=[]),
+    'h2X': dict(pre=['C2', 'X'], post=[]),
+    'hX2': dict(pre=['Xg', 'C2'], post=[]),
+    'hS-': dict(pre=['S', '-'], post=[]),
+    'hP': dict(pre=[], post=['X']),
+    'hXP': dict(pre=['X'], post=['C2']),
+}
+HIST_NAMES = [h for h in HISTORIES if h != 'h0']
+
+
+def hist_class(h):
+    """coarse class of a history for finding keys"""
+    d = HISTORIES[h]
+    if not d['pre'] and not d['post']:
+        return None
+    if any(o.endswith('g') for o in d['pre']):
+        return 'earlier-generation-on-the-same-frames'
+    if d['pre']:
+        return 'earlier-context-on-the-same-frames'
+    return 'later-context-on-the-same-frames'
 
 
 def alt_table(J):
@@ -119,7 +169,7 @@ def individual(J, u, choice):
 
 def nests_for(J, name):
     out = []
-    for mu, pos in NEST_STRUCTS[name]:
+    for mu, pos in (NEST_STRUCTS.get(name) or NEST_STRUCTS_F[name]):
         members = [IDS[i] for i in pos if i < J]
         if members:
             out.append((mu, members))
@@ -128,7 +178,7 @@ def nests_for(J, name):
 
 def cnl_for(J, name):
     out = []
-    for nm, mu, al in CNL_STRUCTS[name]:
+    for nm, mu, al in (CNL_STRUCTS.get(name) or CNL_STRUCTS_H[name]):
         d = {IDS[i]: a for i, a in al.items() if i < J}
         if d:
             out.append((nm, mu, d))
@@ -158,6 +208,63 @@ def build_spec(spec):
     else:
         raise ValueError(spec)
     return u, cvs
+
+
+def build_nests(form, nests_ref, all_ids):
+    """The same nests (parameter name, members) handed over in one of the NEST_FORMS (or 'named', the original one)."""
+    from biogeme.nests import NestsForNestedLogit, OneNestForNestedLogit
+    from biogeme.expressions import Beta
+
+    n = len(nests_ref)
+    mus = [mu for mu, _ in nests_ref]
+
+    def one(i, name):
+        return OneNestForNestedLogit(nest_param=Beta(mus[i], 1.0, None, None, 0),
+                                     list_of_alternatives=list(nests_ref[i][1]), name=name)
+
+    def obj(names):
+        return NestsForNestedLogit(choice_set=list(all_ids), tuple_of_nests=tuple(one(i, names[i]) for i in range(n)))
+
+    if form == 'named':
+        return obj([f'nest_{mu}' if mus.count(mu) == 1 else f'nest_{mu}_{i}' for i, mu in enumerate(mus)])
+    if form == 'auto':
+        return obj([None] * n)
+    if form == 'old':
+        return NestsForNestedLogit(choice_set=list(all_ids),
+                                   tuple_of_nests=tuple((Beta(mu, 1.0, None, None, 0), list(m)) for mu, m in nests_ref))
+    if form == 'tuple':
+        return tuple(one(i, None) for i in range(n))
+    if form == 'list':
+        return [one(i, None) for i in range(n)]
+    if form == 'same':
+        return obj([SAME_NAME] * n)
+    if form == 'clash':  # the explicit name of the first nest is the automatic name of the last one
+        return obj([f'nest_{n}'] + [None] * (n - 1))
+    if form == 'tuple_same':
+        return tuple(one(i, SAME_NAME) for i in range(n))
+    raise ValueError(form)
+
+
+def build_cnl(cnl_ref, all_ids):
+    from biogeme.nests import NestsForCrossNestedLogit, OneNestForCrossNestedLogit
+    from biogeme.expressions import Beta
+    return NestsForCrossNestedLogit(
+        choice_set=list(all_ids),
+        tuple_of_nests=tuple(
+            OneNestForCrossNestedLogit(nest_param=Beta(mu, 1.0, None, None, 0), dict_of_alpha=dict(al), name=nm)
+            for nm, mu, al in cnl_ref))
+
+
+class FreeSeam:
+    """Sampler of the generations that belong to the HISTORY (not to the context under test): first n rows."""
+
+    def __init__(self):
+        self.pos = 0
+
+    def __call__(self, df, n=None, frac=None, replace=False, weights=None, random_state=None, axis=None,
+                 ignore_index=False):
+        self.pos += 1
+        return Seam._fallback(df, n, ignore_index)
 
 
 class Seam:
@@ -257,8 +364,9 @@ def _fnum(x):
 
 # ----------------------------------------------------------------------------- one generated table
 def table_key(t):
-    return (t['J'], tuple(map(tuple, t['part1'])), tuple(t['k1']),
+    return ((t['J'], tuple(map(tuple, t['part1'])), tuple(t['k1']),
             None if t.get('part2') is None else (tuple(map(tuple, t['part2'])), tuple(t['k2'])), t['spec'], t.get('mv'))
+            + ((t['hist'],) if (t.get('hist') or 'h0') != 'h0' else ()))
 
 
 def run_table(t, rec: Rec):
@@ -283,11 +391,16 @@ def run_table(t, rec: Rec):
     full1 = all(k == len(b) for k, b in zip(k1, part1))
     full2 = part2 is not None and all(k == len(b) for k, b in zip(k2, part2))
     nviol0 = len(rec.violations) + sum(v.get('more', 0) for v in rec.violations)
+    hist = t.get('hist') or 'h0'
+    hclass = hist_class(hist)
 
     def viol(clause, witness, what, expected=None, observed=None, row=None):
         case = dict(t)
         if row is not None:
             case = dict(t, focus_row=row)
+        if hclass:
+            witness = f'{witness}|{hclass}'
+            what = f'{what}; HISTORY on the same data frames: {HISTORIES[hist]}'
         rec.violation(f'C19|{clause}|{witness}', what, case, expected=expected, observed=observed)
 
     ctx_desc = (f'J={J} ids={all_ids} partition={part1} sizes={k1}'
@@ -325,16 +438,44 @@ def run_table(t, rec: Rec):
     cnl_ref = None
     if mv in CNL_STRUCTS:
         cnl_ref = cnl_for(J, mv)
-        cnl_obj = NestsForCrossNestedLogit(
-            choice_set=list(all_ids),
-            tuple_of_nests=tuple(
-                OneNestForCrossNestedLogit(nest_param=Beta(mu, 1.0, None, None, 0), dict_of_alpha=dict(al), name=nm)
-                for nm, mu, al in cnl_ref))
+        cnl_obj = build_cnl(cnl_ref, all_ids)
     if os.path.exists(FILE_NAME):
         os.remove(FILE_NAME)
     seam = Seam(script, by_id)
+
+    def history_op(op):
+        """Another context on the SAME frames (and, with 'g', a generation into the same file)."""
+        g = op.endswith('g')
+        sname = op[:-1] if g else op
+        if sname == 'X':
+            sname = 'C1' if mv == 'C0' else 'C0'
+        elif sname == 'S':
+            sname = mv if mv in CNL_STRUCTS else 'C1'
+        u2, cv2 = build_spec(SPEC_NAMES[(SPEC_NAMES.index(spec) + 1) % len(SPEC_NAMES)])
+        kw2 = {}
+        if part2 is not None:
+            kw2 = dict(mev_partition=Partition([set(b) for b in part2], full_set=set(a for b in part2 for a in b)),
+                       mev_sample_sizes=list(k2))
+        if sname != '-':
+            kw2['cnl_nests'] = build_cnl(cnl_for(J, sname), all_ids)
+        c2 = SamplingContext(
+            the_partition=Partition([set(b) for b in part1], full_set=set(all_ids)), sample_sizes=list(k1),
+            individuals=ind_df, choice_column='choice', alternatives=alts_df, id_column=R.ID,
+            biogeme_file_name=FILE_NAME, utility_function=u2, combined_variables=cv2, **kw2)
+        if g:
+            install(FreeSeam())
+            try:
+                ChoiceSetsGeneration(c2).sample_and_merge(recycle=False)
+            finally:
+                uninstall()
+        rec.count('history_operations')
+
     stage = 'SamplingContext'
     try:
+        for op in HISTORIES[hist]['pre']:
+            stage = f'history operation {op} (another valid context on the same frames)'
+            history_op(op)
+        stage = 'SamplingContext'
         kw = {}
         if part2 is not None:
             kw = dict(mev_partition=Partition([set(b) for b in part2], full_set=set(a for b in part2 for a in b)),
@@ -362,12 +503,15 @@ def run_table(t, rec: Rec):
                 recycled = gen.sample_and_merge(recycle=True).data
             finally:
                 uninstall()
+        for op in HISTORIES[hist]['post']:
+            stage = f'history operation {op} (another valid context on the same frames, afterwards)'
+            history_op(op)
     except Exception as e:
         uninstall()
         for ri in range(len(rows)):
             rec.case(None, (table_key(t), ri, 'raised', type(e).__name__), outcome=('raised', type(e).__name__, stage))
         report_seam(seam)
-        viol(f'valid-configuration-raises-{type(e).__name__}', f'in-{stage}',
+        viol(f'valid-configuration-raises-{type(e).__name__}', f'in-{stage.split(" (")[0]}',
              f'{stage} raised {type(e).__name__}: {e} for the valid configuration {ctx_desc}', observed=repr(e))
         _cleanup()
         return
@@ -538,7 +682,8 @@ def run_table(t, rec: Rec):
         nontrivial = na1 * na2 > 1 or (full1 and (part2 is None or full2))
         key = (table_key(t), c, repr(r['a1']), repr(r.get('a2')), r['u'] % len(IND_POOL)) if nontrivial else None
         rec.case(key, (table_key(t), ri, ids1, ids2, [got.get(f'_log_proba_{i}') for i in range(K1)]),
-                 outcome=(tuple(sorted(set(fails))) or 'ok', len(part1), full1, k1[sc] == 1, part2 is not None and full2, mv))
+                 outcome=(tuple(sorted(set(fails))) or 'ok', len(part1), full1, k1[sc] == 1, part2 is not None and full2, mv)
+                 + ((hclass,) if hclass else ()))
         row_ok.append(not fails)
 
     # ---- likelihoods
@@ -548,6 +693,7 @@ def run_table(t, rec: Rec):
     models = [('logit', None)]
     if part2 is not None and mv == 'N':
         models += [('nested', n) for n in NEST_STRUCTS]
+        models += [('nested', f'{sn}/{form}') for sn, form in (t.get('nforms') or [])]
     if part2 is not None and mv in CNL_STRUCTS:
         models += [('cnl', mv)]
     mev_members = set(a for b in part2 for a in b) if part2 is not None else set()
@@ -566,18 +712,19 @@ def _likelihood(t, rec, viol, ctx, database, kind, struct, rows, inds, by_id, al
 
     J, part1, k1, part2, k2, spec = t['J'], t['part1'], t['k1'], t.get('part2'), t.get('k2'), t['spec']
     nests_ref = None
+    sname, _, form = (struct or '').partition('/')
+    form = form or 'named'
+    fw = '-' if form == 'named' else f'nests-as={form}'
     stage = 'GenerateModel'
     try:
         gm = GenerateModel(ctx)
         if kind == 'logit':
             ll = gm.get_logit()
         elif kind == 'nested':
-            nests_ref = nests_for(J, struct)
-            nests = NestsForNestedLogit(
-                choice_set=list(all_ids),
-                tuple_of_nests=tuple(OneNestForNestedLogit(nest_param=Beta(mu, 1.0, None, None, 0),
-                                                           list_of_alternatives=list(m), name=f'nest_{mu}')
-                                     for mu, m in nests_ref))
+            nests_ref = nests_for(J, sname)
+            stage = f'building the nests ({form})'
+            nests = build_nests(form, nests_ref, all_ids)
+            stage = 'get_nested_logit'
             ll = gm.get_nested_logit(nests)
         else:
             ll = gm.get_cross_nested_logit()
@@ -593,7 +740,7 @@ def _likelihood(t, rec, viol, ctx, database, kind, struct, rows, inds, by_id, al
         if isinstance(e, RuntimeError):
             rec.retire = True
         rec.case(None, (table_key(t), kind, struct, 'raised', type(e).__name__), outcome=('ll-raised', kind, type(e).__name__))
-        viol(f'likelihood-{kind}-raises-{type(e).__name__}', f'in-{stage}',
+        viol(f'likelihood-{kind}-raises-{type(e).__name__}', f'in-{stage}' + ('' if fw == '-' else f'|{fw}'),
              f'{stage} raised {type(e).__name__}: {e} for model {kind}/{struct} on the table generated for {ctx_desc}',
              observed=repr(e))
         return
@@ -638,19 +785,21 @@ def _likelihood(t, rec, viol, ctx, database, kind, struct, rows, inds, by_id, al
             okf = R.close(val, totf)
         rec.case((table_key(t), kind, struct, pi, tuple((r['c'], repr(r['a1']), repr(r.get('a2'))) for r in rows)),
                  (table_key(t), kind, struct, pi, round(val, 9)),
-                 outcome=('ll', kind, full, ok, okf))
+                 outcome=('ll', kind, full, ok, okf) + ((form,) if form != 'named' else ()))
+        if form != 'named':
+            rec.count('nest_form_comparisons')
         rec.count('likelihood_comparisons')
         if full:
             rec.count('full_sample_equivalences')
         trivial_point = 'all-zero-point' if all(p[n] == 0.0 for n in R.SPECS[spec]['params']) else 'point'
         if not okf:
-            viol(f'full-sample-likelihood-differs-from-full-model:{kind}', '-',
+            viol(f'full-sample-likelihood-differs-from-full-model:{kind}', fw,
                  f'every stratum sampled completely, yet the {kind} ({struct}) log likelihood of the generated table is {val!r} and '
                  f'the {kind} model on the full choice set gives {totf!r} at {p}; rows={[(r["c"], r["a1"], r.get("a2")) for r in rows]}; '
                  f'{ctx_desc}', expected=totf, observed=val)
         elif not ok:
             viol(f'sampled-likelihood-differs-from-corrected-model:{kind}',
-                 'mev' if part2 is not None else 'first-only',
+                 ('mev' if part2 is not None else 'first-only') + ('' if fw == '-' else f'|{fw}'),
                  f'the {kind} ({struct}) log likelihood of the generated table is {val!r}; the model with utilities corrected by '
                  f'-ln(k/n) (and MEV weights n/k) on the same sample gives {tot!r} at {p} ({trivial_point}); '
                  f'rows={[(r["c"], r["a1"], r.get("a2")) for r in rows]}; {ctx_desc}', expected=tot, observed=val)
@@ -758,7 +907,9 @@ def tasks(tier, seed):
                 cc = dict(c, choices=[ch])
                 out.append(dict(part='ctx', tier=tier, ctxs=[cc], rows=ctx_rows(cc)))
             continue
-        if cur_rows + rows > ROWS_PER_TASK and cur:
+        # contexts with a MEV sample carry the additional models of part F and most histories of part H: smaller chunks
+        limit = ROWS_PER_TASK if c.get('part2') is None else ROWS_PER_TASK // 2
+        if cur_rows + rows > limit and cur:
             out.append(dict(part='ctx', tier=tier, ctxs=cur, rows=cur_rows))
             cur, cur_rows = [], 0
         cur.append(c)
@@ -806,7 +957,37 @@ def tables_of(ctx, tier):
                         spec=ctx['spec'], mv=ctx.get('mv'), idx=(ti + ctx.get('n', 0)) % 2, rows=chunk))
         i += sz
         ti += 1
+    n = ctx.get('n', 0)
+    full = (all(k == len(b) for k, b in zip(ctx['k1'], ctx['part1']))
+            and (ctx.get('part2') is None or all(k == len(b) for k, b in zip(ctx['k2'], ctx['part2']))))
+    # ---- part F: the same tables, the nests handed over in every form (more models on the table, no new generation)
+    if ctx.get('mv') == 'N' and ctx.get('part2') is not None:
+        for ti, t in enumerate(out):
+            if (full and (tier != 'quick' or ti < 2)) or (tier != 'quick' and ti < 2):
+                t['nforms'] = [list(p) for p in FORM_PAIRS]
+            else:
+                m = 3 if tier == 'quick' else 6
+                t['nforms'] = [list(FORM_PAIRS[(m * (ti + n) + j) % len(FORM_PAIRS)]) for j in range(m)]
+    # ---- part H: additional tables = the first tables again, generated after / before other contexts on the same frames
+    base = out[:2]
+    cnl = ctx.get('mv') in CNL_STRUCTS
+    if tier == 'quick':
+        if full and cnl:
+            plan = [(b, h) for b in base[-1:] for h in HIST_NAMES]
+        else:
+            plan = [(base[-1], HIST_NAMES[n % len(HIST_NAMES)])]
+    else:
+        if full:
+            plan = [(b, h) for b in base for h in HIST_NAMES]
+        else:
+            plan = [(base[-1], HIST_NAMES[(3 * n + j) % len(HIST_NAMES)]) for j in range(3)]
+    for b, h in plan:
+        out.append(dict({k: v for k, v in b.items() if k != 'nforms'}, hist=h))
     return out
+
+
+FORM_PAIRS = ([(sn, f) for f in NEST_FORMS for sn in ('N0', 'N3', 'N4')]
+              + [('N3', 'named'), ('N4', 'named'), ('N1', 'tuple'), ('N1', 'same'), ('N2', 'list'), ('N2', 'auto')])
 
 
 def run_task(task):
